@@ -49,6 +49,10 @@ def shards(tier):
     return 2 if tier == "quick" else 8
 
 
+# generous per-shard caps: expiry means INCONCLUSIVE, never a verdict (the box is shared and can be 10x slow)
+TIMEOUT = {"quick": 900, "thorough": 3000}
+
+
 class Custom(Exception):
     pass
 
